@@ -10,6 +10,13 @@ stdin:  {"info": true}  -> the defaults the harness needs (read from isobar.cons
                               timeline.clock_source.ticks_per_beat = n),
                   "form": "dict", "fields": {key: {"seq": [v, ...], "loop": bool} | {"const": v}}      (dict of patterns)
                 | "form": "seq",  "events": [{key: v, ...}, ...]}                                     (pattern of dicts)
+                  optional "supply" (how the event stream is handed to schedule()), with "order" = indices into events / the
+                  field sequences making up ONE pass and "passes" = number of passes (null: endless, limited by count):
+                    "dict"  dict of patterns, PSequence(values, passes)       "pdict"  the same wrapped in iso.PDict(...)
+                    "pdict-list"  iso.PDict([dict, ...])  (array of dicts)    "fresh"  a Pattern building a NEW dict per event
+                    "shared" / "shared-endless" / "shared-in-pass"  PSequence([d0, d1, ...], passes): the SAME dict objects are
+                                                                    yielded again on every pass (or twice within one pass)
+                    "shared-ploop"  PLoop(PSequence([d0, d1, ...], 1), passes)
         values: JSON ints / floats / strings / null / bools are passed to isobar as they are.
 stdout: {"cases": [{"calls": [[tick, control, value, channel], ...], "other": [[tick, method], ...],
                     "exc": [tick, class name] | null}]}
@@ -69,18 +76,54 @@ class Recorder(iso.OutputDevice):
         self.other.append([self.now, "send"])
 
 
+class FreshDicts(iso.Pattern):
+    """a pattern of event dicts that builds a NEW dict object for every event it yields"""
+    def __init__(self, events, order, passes):
+        self.events, self.order, self.passes = events, order, passes
+        self.pos = 0
+
+    def reset(self):
+        super().reset()
+        self.pos = 0
+
+    def __next__(self):
+        n = len(self.order)
+        if self.passes is not None and self.pos >= n * self.passes:
+            raise StopIteration
+        e = dict(self.events[self.order[self.pos % n]])
+        self.pos += 1
+        return e
+
+
 def build_events(case):
+    supply = case.get("supply")
+    passes = case.get("passes")
+    rep = () if passes is None else (passes,)
     if case["form"] == "dict":
         d = {}
         for k, spec in case["fields"].items():
             if "const" in spec:
                 d[k] = spec["const"]
+            elif supply:
+                d[k] = iso.PSequence(list(spec["seq"]), *rep)
             elif spec.get("loop"):
                 d[k] = iso.PSequence(list(spec["seq"]))
             else:
                 d[k] = iso.PSequence(list(spec["seq"]), 1)
-        return d
-    return iso.PSequence([dict(e) for e in case["events"]], 1)
+        return iso.PDict(d) if supply == "pdict" else d
+    if not supply:
+        return iso.PSequence([dict(e) for e in case["events"]], 1)
+    dicts = [dict(e) for e in case["events"]]
+    seq = [dicts[i] for i in case["order"]]          # the same object wherever an index recurs
+    if supply == "fresh":
+        return FreshDicts(dicts, case["order"], passes)
+    if supply == "pdict-list":
+        return iso.PDict(seq)
+    if supply == "shared-ploop":
+        return iso.PLoop(iso.PSequence(seq, 1), *rep)
+    if supply in ("shared", "shared-endless", "shared-in-pass"):
+        return iso.PSequence(seq, *rep)
+    raise ValueError("unknown supply %r" % (supply,))
 
 
 def run_case(case):
